@@ -329,4 +329,110 @@ theorem run_no_stray {s : Sys} (h : SysGood s) (ins : List In) :
     · exact step_no_stray h a o ho
     · exact ih (step_good h a) o ho
 
+
+/-- the request that was delivered (first) under number `i` -/
+def firstDeliver (ins : List In) (i : Nat) : Option Request :=
+  ins.findSome? fun a => match a with
+    | .deliver j r => if j = i then some r else none
+    | _ => none
+
+theorem run_token (ins : List In) :
+    ∀ (s : Sys) (o : Out), o ∈ (run s ins).2 →
+      match s.entries o.id with
+      | some e => o.token = e.req.token
+      | none => ∃ req, firstDeliver ins o.id = some req ∧ o.token = req.token := by
+  induction ins with
+  | nil => intro s o ho; simp [run] at ho
+  | cons a as ih =>
+    intro s o ho
+    simp only [run, List.mem_append] at ho
+    rcases ho with ho | ho
+    · -- produced by this step: the entry exists and the output is tagged with its token
+      have hid := step_outs_id s a o ho
+      cases a with
+      | deliver id req => simp only [step] at ho; split at ho <;> simp at ho
+      | complete id =>
+        simp only [In.id] at hid
+        simp only [step] at ho
+        split at ho
+        · simp at ho
+        · rename_i e he
+          split at ho
+          · simp at ho
+          · simp only [tag, List.mem_map] at ho
+            obtain ⟨_, _, rfl⟩ := ho
+            simp [he]
+      | stop id =>
+        simp only [In.id] at hid
+        simp only [step] at ho
+        split at ho
+        · simp at ho
+        · rename_i e he
+          simp only [tag, List.mem_map] at ho
+          obtain ⟨_, _, rfl⟩ := ho
+          simp [he]
+    · have h := ih (step s a).1 o ho
+      by_cases hne : a.id = o.id
+      · cases a with
+        | deliver id req =>
+          simp only [In.id] at hne; subst hne
+          cases he : s.entries o.id with
+          | none =>
+            have : (step s (.deliver o.id req)).1.entries o.id =
+                some { req, res := contextRender s.site req, st := .start, finished := false } := by
+              simp [step, he, set_entries_self]
+            rw [this] at h
+            simp only at h ⊢
+            exact ⟨req, by simp [firstDeliver], h⟩
+          | some e =>
+            have : (step s (.deliver o.id req)).1.entries o.id = some e := by simp [step, he]
+            rw [this] at h
+            simpa using h
+        | complete id =>
+          simp only [In.id] at hne; subst hne
+          cases he : s.entries o.id with
+          | none =>
+            have : (step s (.complete o.id)).1.entries o.id = none := by simp [step, he]
+            rw [this] at h
+            simp only at h ⊢
+            obtain ⟨req, hf, ht⟩ := h
+            exact ⟨req, by simpa [firstDeliver] using hf, ht⟩
+          | some e =>
+            simp only
+            by_cases hc : (e.finished || e.res == Res.pending) = true
+            · have : (step s (.complete o.id)).1.entries o.id = some e := by simp [step, he, hc]
+              rw [this] at h; simpa using h
+            · have : (step s (.complete o.id)).1.entries o.id =
+                  some { e with st := (runDriving e.res e.st).1, finished := true } := by
+                simp [step, he, hc, set_entries_self]
+              rw [this] at h; simpa using h
+        | stop id =>
+          simp only [In.id] at hne; subst hne
+          cases he : s.entries o.id with
+          | none =>
+            have : (step s (.stop o.id)).1.entries o.id = none := by simp [step, he]
+            rw [this] at h
+            simp only at h ⊢
+            obtain ⟨req, hf, ht⟩ := h
+            exact ⟨req, by simpa [firstDeliver] using hf, ht⟩
+          | some e =>
+            have : (step s (.stop o.id)).1.entries o.id = some { e with st := (outerStop e.st).1 } := by
+              simp [step, he, set_entries_self]
+            rw [this] at h; simpa using h
+      · rw [step_entries_other s a hne] at h
+        cases he : s.entries o.id with
+        | some e => rw [he] at h; simpa using h
+        | none =>
+          rw [he] at h
+          simp only at h ⊢
+          obtain ⟨req, hf, ht⟩ := h
+          refine ⟨req, ?_, ht⟩
+          cases a with
+          | deliver id r =>
+            simp only [In.id] at hne
+            simp [firstDeliver, hne] at hf ⊢
+            exact hf
+          | complete id => simpa [firstDeliver] using hf
+          | stop id => simpa [firstDeliver] using hf
+
 end Aiocoap.Render
